@@ -22,7 +22,11 @@ SPEC = dict(
     bounded=[dict(name='C14-bounded', script='bounded/C14.py')],
     replay_finder='bounded/C14.py',
     explanation='normalisation step proved; convolution / centring / completeness bounded',
-    proved_clauses=['merging adds abundances at equal masses (every argument, every peak), sorted, nothing lost, nothing invented',
+    proved_clauses=['the convolution of two patterns without pruning (_convolve_distributions, no isotope limit / threshold, non-negative abundances): total '
+                    'abundance == product of the two totals, and without rounding of the mass keys the mass-weighted sums ADD '
+                    '(MT(result) == MT(a) * total(b) + total(a) * MT(b)) -- i.e. the mean of the convolved pattern is the sum of the means, the algebra '
+                    'behind "its abundance-weighted mean equals the average mass"',
+                    'merging adds abundances at equal masses (every argument, every peak), sorted, nothing lost, nothing invented',
                     'scaling: total == requested abundance (sum mode); largest peak == requested abundance for a pattern normalised to 1 (peak mode); masses kept'],
     bounded_clauses=['sorted; the pattern handed to the scaling step is normalised to its largest peak', 'lightest peak and mean (no pruning)', 'neutron view', 'exact multinomial for <= 12 atoms', 'merge'],
     uncovered_clauses=['multinomial exactness above 12 atoms'], assumptions=['A-REAL', 'SPEC-FOLD', 'LC-ROUND', 'oracle isotope table typed in from NIST'], trusted_base=['z3 5.1', 'cvc5 1.0.3', 'pyvc', 'bounded/C14.py', 'specs/nist.py'],
